@@ -118,11 +118,8 @@ func (c *CmdLine) Complete() ([]string, error) {
 
 // Consume applies the state of a nested processor
 func (c *CmdLine) Consume(lines []string) error {
-	for _, line := range lines {
-		if err := c.ProcessLine(line); err != nil {
-			return err
-		}
-	}
+	// the lines are regular expressions produced by the nested processor, not command words
+	c.proc.lines = append(c.proc.lines, lines...)
 	return nil
 }
 
